@@ -131,6 +131,20 @@ pub fn drive_sign(t: &mut Tracer, tier: &str, seed: u64, plan: Option<String>) {
             verify_event(t, &sess(), "C03", &arr(&v["pk"]), &uid, None, &arr(&v["msg"]), &arr(&v["sig"]), "none");
         }
     }
+    // (c2) digests crafted by the specification so that the first scripted nonce hits a retry branch (r = 0, r + k = n, s = 0)
+    for v in read_plan(&plan) {
+        if v["kind"] == "signretry" {
+            let key = match key_from(&arr(&v["d"])) { Some(k) => k, None => continue };
+            let e = arr(&v["e"]);
+            let mut k2 = rng.bytes(32); k2[0] &= 0x7f;
+            let script = vec![b32(&arr(&v["k"])), b32(&k2)];
+            let (sk, e2) = (key.sk.clone(), e.clone());
+            let (o, ks) = hooked(move || sk.verif_sign_digest(&e2), script);
+            let sig = o.ok().cloned().unwrap_or_default();
+            t.emit(&sess(), "sm2.sign_digest", json!({"prop": "C03", "d": bytes(&key.d), "e": bytes(&e), "mode": "fixed", "fault": v["fault"], "ks": ks.iter().map(|k| bytes(k)).collect::<Vec<_>>(),
+                "sig": bytes(&sig), "outcome": o.name(), "detail": o.detail()}));
+        }
+    }
     // (d) OpenSSL-made signatures (committed corpus)
     let base = concat!(env!("CARGO_MANIFEST_DIR"), "/../corpus/");
     if let (Ok(a), Ok(text)) = (std::fs::read_to_string(format!("{}anchors.json", base)), std::fs::read_to_string(format!("{}sm2_sig_openssl.ndjson", base))) {
@@ -216,7 +230,7 @@ pub fn drive_verify(t: &mut Tracer, tier: &str, seed: u64, plan: Option<String>)
     for v in read_plan(&plan) {
         if v["kind"] == "forge" {
             let (r, s) = (arr(&v["r"]), arr(&v["s"]));
-            if r[0] != 0 || s[0] != 0 { continue; }     // must fit 32 bytes (the plan guarantees it)
+            if r[0] != 0 || s[0] != 0 { continue; }     // must fit 32 bytes (the plan guarantees it; near-miss values >= 2^256 cannot occur)
             let sig = [r[1..].to_vec(), s[1..].to_vec()].concat();
             verify_digest_event(t, &sess(), &arr(&v["pk"]), &arr(&v["e"]), &sig, v["fault"].as_str().unwrap());
         }
@@ -305,6 +319,38 @@ pub fn drive_encrypt(t: &mut Tracer, tier: &str, seed: u64, plan: Option<String>
         let len = 8161 + rng.below(if thorough { 20000 } else { 600 }) as usize;
         if let Some(ct) = encrypt_event(t, &sess(), &key, Some(&gg), &gg.msg(len), "c1c3c2", false, vec![]) {
             decrypt_event(t, &sess(), "C05", &key.d, &ct, "c1c3c2", false, "own-ciphertext");
+        }
+    }
+    // weak "t is all zero" tests: nonces whose key stream t = KDF(x2||y2, |M|) is NOT all zero but folds to zero (XOR of the bytes, sum of the
+    // bytes, first byte, last byte).  Found by search with the library's own primitives (input construction); the specification judges:
+    // the ciphertext for that nonce must be produced (no spurious retry) and a ciphertext built for it must decrypt.
+    {
+        let key = key_from(&keys[3]).unwrap();
+        let pkp = key.sk.public_key.value().clone();
+        let pats: [(&str, fn(&[u8]) -> bool); 4] = [("xor", |t| t.iter().fold(0u8, |a, b| a ^ b) == 0), ("sum", |t| t.iter().fold(0u8, |a, b| a.wrapping_add(*b)) == 0),
+            ("first", |t| t[0] == 0), ("last", |t| t[t.len() - 1] == 0)];
+        for (pi, (_name, pat)) in pats.iter().enumerate() {
+            let mlen = 2 + pi;
+            let mut found = None;
+            for i in 1..20000u64 {
+                let k: U256 = [i * 7919 + pi as u64, 0x1234_5678_9abc_def0, 0x0fed_cba9_8765_4321 ^ i, 0x1357_9bdf_0246_8ace];
+                let s = pkp.scalar_mul(&k).to_byte_be(false);
+                let t = gm_sm2::util::kdf(&s[1..65], mlen);
+                if pat(&t) && t.iter().any(|b| *b != 0) { found = Some((k, s, t)); break; }
+            }
+            if let Some((k, s, tt)) = found {
+                let m: Vec<u8> = (0..mlen).map(|j| 0x41 + j as u8).collect();
+                // (1) the library's encryption with this nonce scripted
+                if let Some(ct) = encrypt_event(t, &sess(), &key, None, &m, "c1c3c2", false, vec![b32(&u256_be(&k))]) {
+                    decrypt_event(t, &sess(), "C05", &key.d, &ct, "c1c3c2", false, "own-ciphertext");
+                }
+                // (2) a ciphertext for this nonce assembled from primitives (as an independent encryptor would send it)
+                let c1 = g_mul(&k).to_byte_be(false);
+                let c2: Vec<u8> = m.iter().zip(tt.iter()).map(|(a, b)| a ^ b).collect();
+                let c3 = gm_sm3::sm3_hash(&[&s[1..33], &m[..], &s[33..65]].concat());
+                let ct = [c1, c3.to_vec(), c2].concat();
+                decrypt_event(t, &sess(), "C05", &key.d, &ct, "c1c3c2", false, "weak-zero");
+            }
         }
     }
     // KDF unit events
